@@ -15,6 +15,11 @@ Correspondence: the REAL `psutil.net_io_counters / psutil.disk_io_counters` (fro
 `/sys/block[/...]` only, so that worlds without `/proc/diskstats` run the real `read_sysfs`) and
 `psutil.disk_usage` (over a patched `os.statvfs`) against the Lean model and the specification
 on generated device tables rendered by the *Lean* kernel-side renderers.
+
+Seeded round 5: HISTORIES of calls in one process with the default `nowrap=True` (op `hist`): the translator pins
+`_common._WrapNumbers` / `wrap_numbers` and the statements under `if nowrap:` (facts wrapStrictLess, wrapNames, wrapClearNames,
+wrapFrame, frontWrapFrame), the model is Model/C09Wrap.lean, the history-defined promise Spec/C09Hist.lean; generator family
+`gen_hist_case` (+ corpus + 216 exhaustive 3-step histories).
 """
 import ast
 import errno
@@ -31,7 +36,7 @@ from harness.common.fakeproc import FakeProc, patched
 from harness.common.shrink import ddmin
 
 PROP = "C09"
-DRIVER_MODULES = ["PsutilModel.Model.C09Gen", "PsutilModel.Spec.C09"]
+DRIVER_MODULES = ["PsutilModel.Model.C09Gen", "PsutilModel.Spec.C09", "PsutilModel.Spec.C09Hist"]
 NEEDS_EXT = True
 TRUSTED = [
     "C09 kernel-side renderers (Spec/C09.lean): /proc/net/dev line `%6s: %7llu %7llu %4llu %4llu %4llu %5llu %10llu %9llu %8llu %7llu %4llu %4llu %4llu %5llu %7llu %10llu`, /proc/diskstats line `%4d %7d %s` + 11 (+4, +6) blank-separated counters, the 7-field partition line of 2.6.0-2.6.24, and psutil's own 15-field '2.4' layout as pinned by the test-suite (test_emulate_kernel_2_4); validated each run against the live /proc/net/dev and /proc/diskstats of the sandbox by an independent strict parser",
@@ -45,12 +50,12 @@ ASSUMPTIONS = [
     "disk names (/proc/diskstats source): one non-empty token for str.split(): no ASCII whitespace incl. 0x1c-0x1f, no NUL, no UTF-8 encoded Unicode space (WFDisk.noUni: hasUniSpace name = false, stated in the theorems; a line that has one is 'unmodelled'); not '.' or '..'; distinct after the / -> ! mapping",
     "/sys/block source (C09_sysfs*): kernel-shaped tree - `stat` is the only file of that name in a device directory, attribute directories contain no file called `stat` (a deeper `stat` file IS read by the code and by the model: raw family 'deepstat'), directory names distinct and not '.'/'..'; names need not be split() tokens; kernel names contain no '!' (the kernel's '/' -> '!' is not injective otherwise); with the bare basename(root) of the code as found a device whose kernel name contains '/' was reported under its directory name (former finding C09-sysfs-slash-name, fixed in /repo by da4a5df): C09_sysfs_agrees_with_procfs_Full is proved for the generated configuration (C09_sysfs_agrees_with_procfs_full, through the obligation cfg_sysfs_unbang: cfg.nameReplace = some ('!','/')), refuted for the bare one",
     "device names are unique within one /proc file for the round-trip/sum theorems (the model itself keeps dict-overwrite semantics and the correspondence exercises duplicates)",
-    "nowrap=False (nowrap=True post-processing is property C10)",
+    "nowrap=True (the default) over a history of calls: exact values are claimed for field j of device d only when that field was not seen going backwards along the maximal run of consecutive earlier nowrap=True observations listing d since the last cache_clear(), over the calls of the same form AND over the calls of either form (Spec/C09Hist.lean); where a counter was seen going backwards the value is property C10's subject and not judged here (keys, order, field names, {}/None still are); the theorems for a call in a history (C09_nowrap_*) assume the state every history of samples leads to (SlotInv, C09_wrap_invariant_every_history) and tuples of the namedtuple's width; the statement over whole front-end histories (C09_nowrap_history_Full) is compared by the correspondence, not proved as one theorem",
     "/sys/block in any listing order (C09_sysfs_any_order, C09_sysfs_total_any_order): Spec.SysListing - every directory of the kernel-shaped tree (the /sys/block listing, the files and the partition/attribute sub-directories of a disk directory, the files and attribute directories of a partition directory) may be listed in any order; the per-device answer is then the promised dict up to the order of its items (Expect.same), the total is literally the promised value",
     "disk_usage: os.statvfs raising OSError is outside the statement ('every statvfs result'); the model (diskUsageCall, C09_disk_usage_call) propagates the error with its errno and the correspondence compares that on 7 errnos, with no specification column",
 ]
 MANIFEST = {
-    "level_text": "Machine-checked Lean 4 proofs over a model of _pslinux.net_io_counters, _pslinux.disk_io_counters (read_procfs, read_sysfs, the choice between them, NotImplementedError, is_storage_device filter), the two psutil front ends (nowrap=False; the zip/sum of the system-wide branch is a translator fact) and _psposix.disk_usage: round-trip theorems parse(render(table)) = documented fields for EVERY interface table (names with ':' '/' digits, unbounded counters) and for every /proc/diskstats table mixing the 14-, 18-, 20- (any >=18), 7- and 15-field layouts (sectors x 512), ValueError for every other field count, total = field-wise sum over whole disks only / over all interfaces (deleting every partition line leaves the total unchanged), None/{} conventions, the same for every kernel-shaped /sys/block tree when /proc/diskstats is absent (stat files of 11, 15, 17 or more fields, partitions below disks, attribute files/directories around; fewer than 10 fields: ValueError) and agreement of the two sources for the same kernel state (full strength for the code as it is, C09_sysfs_agrees_with_procfs_full: read_sysfs uses `.replace('!', '/')` - translator fact sysfsNameReplace pinned by the obligation cfg_sysfs_unbang -; counterexample 'c/d' proved for the bare basename(root) of the code as found: former finding C09-sysfs-slash-name, fixed in /repo by da4a5df), NotImplementedError when neither exists, the same /sys/block answer for EVERY listing order of every directory of the tree (C09_sysfs_any_order: same dict; C09_sysfs_total_any_order: literally the same total), int() acceptance on ASCII tokens, disk_usage formulas with the unit of every count stated (C09_disk_usage_units: all three block counts x f_frsize; C09_disk_usage_ignores_bsize: f_bsize plays no role; counterexample for the free counts x f_bsize), an OSError of os.statvfs reaching the caller (C09_disk_usage_call), 0 <= percent <= 100, |round1 q - q| <= 1/20. The full-strength name statement (every interface name free of C-locale whitespace is reported unchanged) is proved for the translator-generated configuration (C09_net_names_full: the source uses `.strip(' ')`) and refuted with a witness for the bare `.strip()` (former finding C09-net-name-strip, fixed in /repo by eb17d63). The model's column maps, branch table, sector size, skip condition, namedtuple fields and disk_usage assignments are regenerated from the source on every run and are parameters of the model the theorems are about; the model is tied to the code by a differential run of the real front-end functions over a fake procfs whose files are produced by the Lean renderers.",
+    "level_text": "Machine-checked Lean 4 proofs over a model of _pslinux.net_io_counters, _pslinux.disk_io_counters (read_procfs, read_sysfs, the choice between them, NotImplementedError, is_storage_device filter), the two psutil front ends (nowrap=False, and - seeded round 5 - the DEFAULT nowrap=True over a history of calls: _common._WrapNumbers.run/cache_clear per cache name, the statements under `if nowrap:`; every reachable state satisfies the reminder invariant C09_wrap_invariant_every_history, per-device values are exact and the total is the sum over what is listed NOW unless that very counter was seen going backwards while the device stayed listed: C09_wrap_exact_unless_seen_backwards, C09_nowrap_pernic_exact, C09_nowrap_perdisk_exact, C09_nowrap_*_total_never_double_counts, what-if counterexamples for a merged history and for `<=`; the zip/sum of the system-wide branch is a translator fact) and _psposix.disk_usage: round-trip theorems parse(render(table)) = documented fields for EVERY interface table (names with ':' '/' digits, unbounded counters) and for every /proc/diskstats table mixing the 14-, 18-, 20- (any >=18), 7- and 15-field layouts (sectors x 512), ValueError for every other field count, total = field-wise sum over whole disks only / over all interfaces (deleting every partition line leaves the total unchanged), None/{} conventions, the same for every kernel-shaped /sys/block tree when /proc/diskstats is absent (stat files of 11, 15, 17 or more fields, partitions below disks, attribute files/directories around; fewer than 10 fields: ValueError) and agreement of the two sources for the same kernel state (full strength for the code as it is, C09_sysfs_agrees_with_procfs_full: read_sysfs uses `.replace('!', '/')` - translator fact sysfsNameReplace pinned by the obligation cfg_sysfs_unbang -; counterexample 'c/d' proved for the bare basename(root) of the code as found: former finding C09-sysfs-slash-name, fixed in /repo by da4a5df), NotImplementedError when neither exists, the same /sys/block answer for EVERY listing order of every directory of the tree (C09_sysfs_any_order: same dict; C09_sysfs_total_any_order: literally the same total), int() acceptance on ASCII tokens, disk_usage formulas with the unit of every count stated (C09_disk_usage_units: all three block counts x f_frsize; C09_disk_usage_ignores_bsize: f_bsize plays no role; counterexample for the free counts x f_bsize), an OSError of os.statvfs reaching the caller (C09_disk_usage_call), 0 <= percent <= 100, |round1 q - q| <= 1/20. The full-strength name statement (every interface name free of C-locale whitespace is reported unchanged) is proved for the translator-generated configuration (C09_net_names_full: the source uses `.strip(' ')`) and refuted with a witness for the bare `.strip()` (former finding C09-net-name-strip, fixed in /repo by eb17d63). The model's column maps, branch table, sector size, skip condition, namedtuple fields and disk_usage assignments are regenerated from the source on every run and are parameters of the model the theorems are about; the model is tied to the code by a differential run of the real front-end functions over a fake procfs whose files are produced by the Lean renderers.",
     "level_note": "Trusted: Lean kernel + {propext, Classical.choice, Quot.sound}; the translator; the correspondence harness; kernel line renderers; int()/split()/strip()/round()/os.walk of CPython modelled; negative int() results, non-ASCII digit tokens and UTF-8 encoded Unicode spaces are outside the model's domain (the model says so, such inputs are counted and not judged).",
     "technique": "Lean 4 round-trip proofs (render → parse) per kernel layout with translator-fed column maps + sum laws by induction + differential correspondence over a fake procfs and a redirected /sys/block",
     "design_ref": "DESIGN.md §5 C09",
@@ -459,6 +464,102 @@ def _front_frame(tree, fname):
     return out
 
 
+def _front_wrap_frame(tree, fname):
+    """the statements of a front end that run when `nowrap` is TRUE and that the nowrap=False frame does not show:
+    the body of every top-level `if nowrap:` (source text, in order)"""
+    fn = L.find_def(tree, fname)
+    out = []
+    seen = False
+    for st in _nodoc(fn.body):
+        if isinstance(st, ast.If) and L.unparse(st.test) == "nowrap":
+            seen = True
+            out += ["nowrap: " + L.unparse(x) for x in st.body]
+        else:
+            # the other statements (pinned in full by frontFrame) by their first line: fixes the ORDER of the two kinds
+            out.append(L.unparse(st).split("\n")[0])
+    if not seen:
+        raise NotRecognised("%s: no `if nowrap:` statement" % fname)
+    return out
+
+
+def _wrap_name_pair(tree, fname, per):
+    """the `name` handed to _wrap_numbers by the per-device form and by the system-wide form of a front end"""
+    fn = L.find_def(tree, fname)
+    calls = L.calls_in(fn, "_wrap_numbers")
+    if len(calls) != 1 or len(calls[0].args) != 2 or calls[0].keywords:
+        raise NotRecognised("%s: not exactly one call _wrap_numbers(<dict>, <name>)" % fname)
+    arg = calls[0].args[1]
+    if isinstance(arg, ast.Constant) and isinstance(arg.value, str):
+        return arg.value, arg.value
+    if isinstance(arg, ast.Name):
+        assigns = [st for st in ast.walk(fn) if isinstance(st, ast.Assign) and len(st.targets) == 1
+                   and L.dotted(st.targets[0]) == arg.id]
+        if len(assigns) == 1 and isinstance(assigns[0].value, ast.IfExp) and L.dotted(assigns[0].value.test) == per:
+            ie = assigns[0].value
+            if all(isinstance(x, ast.Constant) and isinstance(x.value, str) for x in (ie.body, ie.orelse)):
+                return ie.body.value, ie.orelse.value
+    raise NotRecognised("%s: name argument of _wrap_numbers: %s" % (fname, L.unparse(arg)))
+
+
+def _wrap_clear_names(tree, fname):
+    """the names `<fname>.cache_clear()` clears: `functools.partial(_wrap_numbers.cache_clear, 'N')` or a module-level
+    function whose body is `_wrap_numbers.cache_clear('N')` calls only"""
+    for st in tree.body:
+        if isinstance(st, ast.Assign) and len(st.targets) == 1 and L.dotted(st.targets[0]) == fname + ".cache_clear":
+            c = st.value
+            if isinstance(c, ast.Call) and L.dotted(c.func).endswith("partial") and len(c.args) == 2 and not c.keywords \
+                    and L.dotted(c.args[0]) == "_wrap_numbers.cache_clear" and isinstance(c.args[1], ast.Constant) \
+                    and isinstance(c.args[1].value, str):
+                return [c.args[1].value]
+            if isinstance(c, ast.Name):
+                names = []
+                for b in _nodoc(L.find_def(tree, c.id).body):
+                    if isinstance(b, ast.Expr) and isinstance(b.value, ast.Call) and len(b.value.args) == 1 \
+                            and not b.value.keywords and L.dotted(b.value.func) == "_wrap_numbers.cache_clear" \
+                            and isinstance(b.value.args[0], ast.Constant) and isinstance(b.value.args[0].value, str):
+                        names.append(b.value.args[0].value)
+                    else:
+                        raise NotRecognised("%s: statement %s" % (c.id, L.unparse(b)[:60]))
+                return names
+            raise NotRecognised("%s.cache_clear = %s" % (fname, L.unparse(c)[:60]))
+    raise NotRecognised("%s.cache_clear is not assigned" % fname)
+
+
+def _wrap_facts(common):
+    """_common._WrapNumbers (the helper behind nowrap=True): the comparison that detects a counter going backwards, and
+    every statement of _add_dict / _remove_dead_reminders / run / cache_clear and of wrap_numbers as source text"""
+    out = {}
+    run = L.find_def(common, "run", cls="_WrapNumbers")
+    found = []
+    for n in ast.walk(run):
+        if isinstance(n, ast.If) and isinstance(n.test, ast.Compare) and len(n.test.ops) == 1 \
+                and any(isinstance(b, ast.AugAssign) for b in n.body):
+            l, r = L.dotted(n.test.left), L.dotted(n.test.comparators[0])
+            op = type(n.test.ops[0]).__name__
+            if (l, r) == ("input_value", "old_value") and op in ("Lt", "LtE"):
+                found.append(op == "Lt")
+            elif (l, r) == ("old_value", "input_value") and op in ("Gt", "GtE"):
+                found.append(op == "Gt")
+            else:
+                raise NotRecognised("run: wrap test %s" % L.unparse(n.test))
+    if len(found) != 1:
+        raise NotRecognised("run: %d wrap tests" % len(found))
+    out["strict"] = found[0]
+    frame = []
+    for m in ("__init__", "_add_dict", "_remove_dead_reminders", "run", "cache_clear"):
+        fn = L.find_def(common, m, cls="_WrapNumbers")
+        frame.append("def %s(%s):" % (m, L.unparse(fn.args)))
+        frame += [_indent(L.unparse(s)) for s in _nodoc(fn.body)]
+    fn = L.find_def(common, "wrap_numbers")
+    frame.append("def wrap_numbers(%s):" % L.unparse(fn.args))
+    frame += [_indent(L.unparse(s)) for s in _nodoc(fn.body)]
+    for st in common.body:
+        if isinstance(st, ast.Assign) and any(L.dotted(t) in ("_wn", "wrap_numbers.cache_clear") for t in st.targets):
+            frame.append(L.unparse(st))
+    out["frame"] = frame
+    return out
+
+
 def _front_default(tree, fname, per):
     """the default of the `perdisk` / `pernic` parameter, as written"""
     fn = L.find_def(tree, fname)
@@ -823,6 +924,27 @@ def facts(snap, F):
               "source text in order")
     F.try_add("usagePercentIsRatioTimes100", "Bool", lambda: L.lean_bool(_usage_percent_shape(common)),
               "_common.usage_percent is (float(used)/total)*100, 0.0 on ZeroDivisionError, round(ret, round_)")
+    # ---- seeded round 5: the default call form (nowrap=True) over a history of calls
+    wrap = lambda: get("wrap", lambda: _wrap_facts(common))
+    F.try_add("wrapStrictLess", "Bool", lambda: L.lean_bool(wrap()["strict"]),
+              "_WrapNumbers.run: a counter counts as gone backwards iff `input_value < old_value` (strict)")
+
+    def wrap_names():
+        d = _wrap_name_pair(init, "disk_io_counters", "perdisk")
+        n = _wrap_name_pair(init, "net_io_counters", "pernic")
+        return _strs([d[0], d[1], n[0], n[1]])
+    F.try_add("wrapNames", "List String", wrap_names,
+              "the `name` each call form hands to _wrap_numbers: [disk perdisk, disk system-wide, net pernic, net system-wide]")
+    F.try_add("wrapClearNames", "List (List String)",
+              lambda: L.lean_list([_strs(_wrap_clear_names(init, "disk_io_counters")), _strs(_wrap_clear_names(init, "net_io_counters"))]),
+              "the names psutil.disk_io_counters.cache_clear() / psutil.net_io_counters.cache_clear() clear")
+    F.try_add("wrapFrame", "List String", lambda: _strs(wrap()["frame"]),
+              "_common._WrapNumbers.__init__/_add_dict/_remove_dead_reminders/run/cache_clear, wrap_numbers and the module-level "
+              "instance: every statement as source text, in order (what Model/C09Wrap.lean transcribes)")
+    F.try_add("frontWrapFrame", "List (List String)",
+              lambda: L.lean_list([_strs(_front_wrap_frame(init, "disk_io_counters")), _strs(_front_wrap_frame(init, "net_io_counters"))]),
+              "psutil.disk_io_counters / psutil.net_io_counters: the statements under `if nowrap:` (the raw sample and "
+              "_wrap_numbers under one lock, the empty dict fed as well; `rawdict = wrapdict` after the empty test), as source text")
 
 
 def _runtime(snap):
@@ -1082,6 +1204,40 @@ class Impl:
             self.ps.disk_io_counters.cache_clear()
         kw = {"nowrap": nowrap} if default and not perdisk else {"perdisk": perdisk, "nowrap": nowrap}
         return self._call(self.ps.disk_io_counters, **kw)
+
+    def hist(self, steps, files):
+        """a history of calls in ONE process: both nowrap caches are emptied first (a fresh process), then every step
+        writes the kernel files of its moment and makes the call; `_omit` = nowrap is not passed (the documented default)"""
+        self.ps.net_io_counters.cache_clear()
+        self.ps.disk_io_counters.cache_clear()
+        self.ps._common.wrap_numbers.cache_clear()
+        outs = []
+        try:
+            for st, fl in zip(steps, files):
+                k = st["k"]
+                if k == "clearnet":
+                    outs.append(self._call(self.ps.net_io_counters.cache_clear))
+                    continue
+                if k == "cleardisk":
+                    outs.append(self._call(self.ps.disk_io_counters.cache_clear))
+                    continue
+                per_kw = "pernic" if k == "net" else "perdisk"
+                kw = {}
+                if st[per_kw] or not st.get("_default"):
+                    kw[per_kw] = st[per_kw]
+                if not (st["nowrap"] and st.get("_omit")):
+                    kw["nowrap"] = st["nowrap"]
+                if k == "net":
+                    self.fp.write("net/dev", bytes.fromhex(fl["file"]))
+                    outs.append(self._call(self.ps.net_io_counters, **kw))
+                else:
+                    self.fp.write("diskstats", bytes.fromhex(fl["file"]))
+                    self.set_sysblock([bytes.fromhex(x) for x in fl["sysblock"]])
+                    outs.append(self._call(self.ps.disk_io_counters, **kw))
+        finally:
+            self.ps.net_io_counters.cache_clear()
+            self.ps.disk_io_counters.cache_clear()
+        return outs
 
     def storage(self, sysblock, names):
         self.set_sysblock(sysblock)
@@ -1740,6 +1896,259 @@ def gen_usage_case(rng):
     return op, {"fam": fam}
 
 
+# ------------------------------------------------------------------------------ histories of calls (nowrap=True: the default)
+
+HIST_FAMS = ["return_lower", "return_lower", "return_higher", "return_equal", "steady", "wrap_listed", "rename", "empty_between",
+             "clear_between", "forms", "nowrap_false_between", "random", "random"]
+NET_COLS = 16
+
+
+def _hist_pool(rng, fn):
+    """the devices that may be listed during a history: net → names; disk → whole disks with partitions, one layout each"""
+    pool = []
+    if fn == "net":
+        names = []
+        for _ in range(rng.randrange(2, 6)):
+            for _ in range(10):
+                nm = gen_net_name(rng, rng.choice(["plain", "class", "class", "colon", "slash", "digits", "high"]))
+                if nm not in names:
+                    names.append(nm)
+                    break
+        for nm in names:
+            pool.append({"name": nm, "n": NET_COLS})
+        return pool
+    taken = set()
+    for base in disk_bases(rng, rng.randrange(1, 4)):
+        names = [base] + [part_name(base, i) for i in range(1, 4)]
+        if any(x.replace(b"/", b"!") in taken for x in names):
+            continue
+        taken.update(x.replace(b"/", b"!") for x in names)
+        lay = rng.choice(["full0", "full4", "full6", "full6", "old24"])
+        major = rng.choice([8, 65, 179, 253, 259])
+        pool.append({"name": base, "part": False, "lay": lay, "major": major, "minor": 0})
+        for i in range(1, rng.choice([0, 1, 1, 2, 3]) + 1):
+            pool.append({"name": part_name(base, i), "part": True, "lay": rng.choice([lay, "part"]), "major": major, "minor": i})
+    for d in pool:
+        d["n"] = {"full0": 11, "full4": 15, "full6": 17, "old24": 12, "part": 4}[d["lay"]]
+    return pool
+
+
+def _hist_fresh(rng, n, level, salt):
+    """the counters of a device that has just appeared: `low` = a young device, `high` = one that has worked a lot"""
+    if level == "low":
+        return [rng.randrange(0, 40) for _ in range(n)]
+    if level == "big":
+        return [2**64 - 1 - rng.randrange(0, 1000) - 1000 * i for i in range(n)]
+    return [10**rng.randrange(3, 12) + salt * 97 + i * 7 + rng.randrange(0, 50) for i in range(n)]
+
+
+def _hist_advance(rng, vals):
+    """counters of a device that stayed up: each grows or stays as it is (an idle column does not move)"""
+    return [v + (0 if rng.random() < 0.35 else rng.randrange(1, 10**rng.randrange(1, 7))) for v in vals]
+
+
+def _hist_item(fn, d, vals):
+    if fn == "net":
+        return {"name": d["name"].hex(), "cols": list(vals)}
+    if d["lay"] == "part":
+        rec = {"k": "part", "v": list(vals)}
+    elif d["lay"] == "old24":
+        rec = {"k": "old24", "s": list(vals[:11]), "last": vals[11]}
+    else:
+        rec = {"k": "full", "s": list(vals[:11]), "ext": list(vals[11:])}
+    return {"major": d["major"], "minor": d["minor"], "name": d["name"].hex(), "part": d["part"], "rec": rec}
+
+
+def _hist_step(fn, per, nowrap, items, rng=None):
+    st = {"k": fn, ("pernic" if fn == "net" else "perdisk"): per, "nowrap": nowrap}
+    if fn == "net":
+        st.update({"h1": H1.hex(), "h2": H2.hex(), "ifs": items})
+    else:
+        st["devs"] = items
+    if rng is not None:
+        if nowrap and rng.random() < 0.6:
+            st["_omit"] = True           # nowrap=True by NOT passing it: the documented default
+        if not per and rng.random() < 0.5:
+            st["_default"] = True        # the system-wide form by not passing pernic / perdisk
+    return st
+
+
+def hist_from_plan(rng, fn, pool, plan, forms, nowraps, clears=()):
+    """plan[t][i] = what device i does at step t: 'up' (listed, counters advance), 'same' (listed, unchanged), 'gone',
+    'low' / 'high' / 'equal' (listed as a NEW device with young / heavily used / the last seen counters), 'wrap' (listed,
+    some counters lower than before: a real overflow); clears = steps before which cache_clear() is called"""
+    steps, events = [], set()
+    vals = [None] * len(pool)
+    last = [None] * len(pool)          # the counters when last listed
+    for t, row in enumerate(plan):
+        if t in clears:
+            steps.append({"k": "clear" + fn})
+        items = []
+        for i, (d, ev) in enumerate(zip(pool, row)):
+            was = vals[i]
+            if ev == "gone":
+                vals[i] = None
+                continue
+            if ev in ("low", "high", "big") or last[i] is None:
+                vals[i] = _hist_fresh(rng, d["n"], ev if ev in ("low", "high", "big") else rng.choice(["low", "high", "high"]), i)
+            elif ev == "equal":
+                vals[i] = list(last[i])
+            elif ev == "wrap":
+                base = was if was is not None else last[i]
+                vals[i] = [v // rng.randrange(2, 9) if (rng.random() < 0.4 and v > 0) else v + rng.randrange(0, 5) for v in base]
+            elif ev == "same":
+                vals[i] = list(was if was is not None else last[i])
+            else:
+                vals[i] = _hist_advance(rng, was if was is not None else last[i])
+            if was is None and last[i] is not None and t > 0:
+                lower = any(a < b for a, b in zip(vals[i], last[i]))
+                events.add("device listed again after an absence with %s counters" % ("LOWER" if lower else "no lower"))
+            elif was is not None and any(a < b for a, b in zip(vals[i], was)):
+                events.add("counter goes backwards while listed (no claim there)")
+            last[i] = list(vals[i])
+            items.append(_hist_item(fn, d, vals[i]))
+        if not items:
+            events.add("nothing listed at some step")
+        steps.append(_hist_step(fn, forms[t], nowraps[t], items, rng))
+    if clears:
+        events.add("cache_clear() inside the history")
+    if len(set(forms)) > 1:
+        events.add("both call forms in one history")
+    if not all(nowraps):
+        events.add("nowrap=False call inside the history")
+    return steps, events
+
+
+def gen_hist_case(rng, fam=None, fn=None):
+    fam = fam or rng.choice(HIST_FAMS)
+    fn = fn or rng.choice(["net", "disk"])
+    pool = _hist_pool(rng, fn)
+    while not pool:
+        pool = _hist_pool(rng, fn)
+    n = len(pool)
+    T = rng.randrange(3, 8)
+    x = rng.randrange(n)                       # the device the family is about
+    plan = [["up" if rng.random() < 0.8 else "same" for _ in range(n)] for _ in range(T)]
+    per0 = rng.random() < 0.5
+    if fn == "disk" and pool[x]["part"] and fam != "random":
+        per0 = True                            # a partition is listed by the per-device form only
+    forms = [per0] * T
+    nowraps = [True] * T
+    clears = set()
+    a = rng.randrange(1, T - 1)                # X goes away before step a …
+    b = rng.randrange(a + 1, T)                # … and is listed again at step b
+    if fam in ("return_lower", "return_higher", "return_equal"):
+        for t in range(a, b):
+            plan[t][x] = "gone"
+        plan[b][x] = {"return_lower": "low", "return_higher": "big", "return_equal": "equal"}[fam]
+        plan[0][x] = "high"
+    elif fam == "steady":
+        pass
+    elif fam == "wrap_listed":
+        plan[0][x] = "high"
+        plan[a][x] = "wrap"
+    elif fam == "rename":
+        y = rng.randrange(n)
+        for t in range(a, T):
+            plan[t][x] = "gone"
+        if y != x:
+            for t in range(0, a):
+                plan[t][y] = "gone"
+            plan[a][y] = "low"
+    elif fam == "empty_between":
+        for i in range(n):
+            plan[a][i] = "gone"
+            plan[0][i] = "high"
+            if a + 1 < T:
+                plan[a + 1][i] = rng.choice(["low", "low", "equal", "up"])
+    elif fam == "clear_between":
+        plan[0][x] = "high"
+        plan[a][x] = "low"
+        clears.add(a)
+    elif fam == "forms":
+        forms = [rng.random() < 0.5 for _ in range(T)]
+        for t in range(a, b):
+            plan[t][x] = "gone"
+        plan[0][x] = "high"
+        plan[b][x] = rng.choice(["low", "big", "equal"])
+    elif fam == "nowrap_false_between":
+        plan[0][x] = "high"
+        for t in range(a, b):
+            plan[t][x] = "gone"
+            nowraps[t] = False
+        plan[b][x] = "low"
+    else:
+        forms = [rng.random() < 0.5 for _ in range(T)] if rng.random() < 0.5 else forms
+        for t in range(T):
+            if rng.random() < 0.12:
+                nowraps[t] = False
+            if t and rng.random() < 0.08:
+                clears.add(t)
+            for i in range(n):
+                r = rng.random()
+                plan[t][i] = ("gone" if r < 0.22 else "low" if r < 0.32 else "high" if r < 0.38 else "equal" if r < 0.42
+                              else "wrap" if r < 0.47 else "same" if r < 0.6 else "up")
+    if fam != "random" and rng.random() < 0.25:
+        forms = [rng.random() < 0.5 for _ in range(T)]
+    steps, events = hist_from_plan(rng, fn, pool, plan, forms, nowraps, clears)
+    return {"op": "hist", "steps": steps}, {"fam": fam, "fn": fn, "events": sorted(events), "n": n, "steps": len(steps)}
+
+
+def hist_corpus_ops():
+    """the clause in its plainest shape, for both functions and both forms: a device works, goes away, and a device of the same
+    name is listed again counting from (about) zero, while another one stays up"""
+    import random
+    ops = []
+    for fn in ("net", "disk"):
+        for per in (True, False):
+            rng = random.Random(905)
+            if fn == "net":
+                pool = [{"name": b"lo", "n": 16}, {"name": b"tun0", "n": 16}]
+            else:
+                pool = [{"name": b"sda", "part": False, "lay": "full6", "major": 8, "minor": 0, "n": 17},
+                        {"name": b"sdb", "part": False, "lay": "full6", "major": 8, "minor": 16, "n": 17},
+                        {"name": b"sdb1", "part": True, "lay": "full6", "major": 8, "minor": 17, "n": 17}]
+            k = len(pool)
+            plan = [["high"] * k, ["up"] + ["gone"] * (k - 1), ["up"] + ["low"] * (k - 1), ["up"] * k]
+            steps, ev = hist_from_plan(rng, fn, pool, plan, [per] * 4, [True] * 4)
+            for st in steps:
+                st["_omit"] = True
+                st.pop("_default", None)
+            ops.append(({"op": "hist", "steps": steps}, {"fam": "return_lower", "fn": fn, "events": sorted(ev), "n": k, "steps": 4}))
+    return ops
+
+
+def hist_exhaustive_ops():
+    """every 3-step history of one device X next to a device that stays up: X absent / listed with young counters / listed with
+    large counters at each step (27), under the form sequences PPP, TTT, PTP, TPT, for both functions; nowrap by default"""
+    ops = []
+    lvl = {"lo": 10, "hi": 100000}
+    for fn in ("net", "disk"):
+        for forms in ((True, True, True), (False, False, False), (True, False, True), (False, True, False)):
+            for s0 in ("ab", "lo", "hi"):
+                for s1 in ("ab", "lo", "hi"):
+                    for s2 in ("ab", "lo", "hi"):
+                        steps = []
+                        for t, (per, sx) in enumerate(zip(forms, (s0, s1, s2))):
+                            n = 16 if fn == "net" else 17
+                            rows = [(b"lo" if fn == "net" else b"sda", [5000 + 100 * t + i for i in range(n)], False, 0)]
+                            if sx != "ab":
+                                rows.append((b"tun0" if fn == "net" else b"sdb", [lvl[sx] + 3 * t + i for i in range(n)], False, 16))
+                                if fn == "disk":
+                                    rows.append((b"sdb1", [lvl[sx] // 2 + 3 * t + i for i in range(n)], True, 17))
+                            if fn == "net":
+                                items = [{"name": nm.hex(), "cols": v} for nm, v, _, _ in rows]
+                            else:
+                                items = [{"major": 8, "minor": mi, "name": nm.hex(), "part": pt,
+                                          "rec": {"k": "full", "s": v[:11], "ext": v[11:]}} for nm, v, pt, mi in rows]
+                            st = _hist_step(fn, per, True, items)
+                            st["_omit"] = True
+                            steps.append(st)
+                        ops.append(({"op": "hist", "steps": steps},
+                                    {"fam": "exhaustive3", "fn": fn, "events": [], "n": 2, "steps": 3}))
+    return ops
+
+
 # ------------------------------------------------------------------------------ correspondence
 
 def features(op, meta):
@@ -1799,6 +2208,14 @@ def features(op, meta):
     elif op["op"] == "usage":
         f.add("usage:" + meta["fam"])
         f.add("usage:f_bsize %s f_frsize" % ("<" if op["st"][0] < op["st"][1] else ">" if op["st"][0] > op["st"][1] else "=="))
+    elif op["op"] == "hist":
+        f.add("hist:family=" + meta["fam"])
+        f.add("hist:function=" + meta["fn"])
+        f.add("hist:steps=%d" % meta["steps"])
+        for e in meta.get("events", []):
+            f.add("hist:" + e)
+        if any(st.get("_omit") for st in op["steps"]):
+            f.add("hist:nowrap=True by default argument")
     if op["op"] == "sysfsraw" and op.get("_order") is not None:
         f.add("sysfsraw:listing-order=permuted")
     if op.get("_default"):
@@ -1825,6 +2242,14 @@ def usage_agrees(im, ref):
     return near_tie and abs(p - exact) <= Fraction(1, 20) + Fraction(1, 10**9)
 
 
+def _strip(o):
+    """keys starting with `_` steer the implementation side only (also inside the steps of a history)"""
+    d = {k: v for k, v in o.items() if not k.startswith("_")}
+    if d.get("op") == "hist":
+        d["steps"] = [{k: v for k, v in st.items() if not k.startswith("_")} for st in d["steps"]]
+    return d
+
+
 def run_ops(ctx, impl, ops):
     """→ list of (impl_out, model_out, spec_out_or_None, extra)"""
     outs = []
@@ -1836,7 +2261,7 @@ def run_ops(ctx, impl, ops):
             # raw /sys/block trees are built first and handed to the model in the order the OS lists them
             if o["op"] == "sysfsraw" and not (o.get("_sysdir") and os.path.isdir(o["_sysdir"])):
                 o["_sysdir"], o["tree"] = impl.materialise(o["tree"], o.get("_order"))
-        answers = drv.batch([{k: v for k, v in o.items() if not k.startswith("_")} for o in chunk])
+        answers = drv.batch([_strip(o) for o in chunk])
         # (keys starting with `_` steer the implementation side only: _nowrap, _default, _order, _kernel)
         for o, ans in zip(chunk, answers):
             if "bad" in ans:
@@ -1860,6 +2285,10 @@ def run_ops(ctx, impl, ops):
             elif kind == "sysfsraw":
                 im = impl.disk_world(None if o["diskstats"] is None else bytes.fromhex(o["diskstats"]), o["tree"],
                                      o["perdisk"], nowrap, sysdir=o.pop("_sysdir", None), order=o.get("_order"), default=dflt)
+            elif kind == "hist":
+                im = impl.hist(o["steps"], ans["files"])
+                outs.append((im, [canon_model(x) for x in ans["model"]], [canon_model(x) for x in ans["spec"]], ans))
+                continue
             elif kind == "int":
                 im = impl.ints([bytes.fromhex(x) for x in o["toks"]])
             elif kind == "storage":
@@ -1872,8 +2301,42 @@ def run_ops(ctx, impl, ops):
     return outs, len(ops)
 
 
+def meets(im, sp):
+    """an answer against a promise with holes (Spec.ExpectH): kind, keys, their order and the field names are promised
+    unconditionally, a value only where the promise is not null"""
+    if not isinstance(im, dict) or not isinstance(sp, dict) or im.get("kind") != sp.get("kind"):
+        return False
+    if sp["kind"] == "perdev":
+        if [k for k, _ in im["devs"]] != [k for k, _ in sp["devs"]]:
+            return False
+        rows = zip((v for _, v in im["devs"]), (v for _, v in sp["devs"]))
+    elif sp["kind"] == "total":
+        rows = [(im["fields"], sp["fields"])]
+    else:
+        return im == sp
+    for a, b in rows:
+        if [f for f, _ in a] != [f for f, _ in b]:
+            return False
+        if any(y is not None and x != y for (_, x), (_, y) in zip(a, b)):
+            return False
+    return True
+
+
+def hist_verdicts(im, mo, sp):
+    """per step: None / 'spec' / 'model'"""
+    out = []
+    for a, m, p in zip(im, mo, sp):
+        out.append("spec" if not meets(a, p) else ("model" if a != m else None))
+    return out
+
+
 def judge(op, im, mo, sp):
     """→ None (agree) / 'spec' / 'model'"""
+    if op["op"] == "hist":
+        if not (len(im) == len(mo) == len(sp) == len(op["steps"])):
+            return "model"
+        v = hist_verdicts(im, mo, sp)
+        return "spec" if "spec" in v else ("model" if "model" in v else None)
     if op["op"] == "usage":
         if sp is not None and not usage_agrees(im, sp):
             return "spec"
@@ -2098,15 +2561,18 @@ def storage_ops(rng):
 def correspond(ctx, res):
     impl = Impl(ctx)
     try:
-        res.rule = ("cases = one call of psutil.net_io_counters / disk_io_counters / disk_usage over a generated "
+        res.rule = ("cases = one call (or, op `hist`, a history of 3-7 calls in one process with nowrap=True by default) of "
+                    "psutil.net_io_counters / disk_io_counters / disk_usage over a generated "
                     "/proc/net/dev, /proc/diskstats (+/sys/block), /sys/block tree without /proc/diskstats, or statvfs result "
                     "(plus one case comparing int() with the model's int on a token list); non-trivial = at least one "
                     "interface/device line is parsed (or an exception / None / {} is the promised outcome for a "
                     "non-empty file) resp. a statvfs record with blocks > 0; distinct = distinct canonical inputs")
         ops = []
         ops += [(o, m, "corpus") for o, m in corpus_ops()]
+        ops += [(o, m, "corpus") for o, m in hist_corpus_ops()]
         n_exh0 = len(ops)
         ops += [(o, m, "exhaustive") for o, m in exhaustive_ops()]
+        ops += [(o, m, "exhaustive") for o, m in hist_exhaustive_ops()]
         n_exh = len(ops) - n_exh0
         ops += [(o, m, "storage") for o, m in storage_ops(ctx.rng)]
         n = ctx.n(1000, 40000)
@@ -2133,6 +2599,10 @@ def correspond(ctx, res):
             if o["op"] in ("net", "disk", "netraw", "diskraw", "sysfs", "sysfsraw") and not o.get("pernic", o.get("perdisk")) \
                     and ctx.rng.random() < 0.5:
                 o["_default"] = True     # the system-wide form asked for by leaving pernic / perdisk out
+            ops.append((o, m, "random"))
+        # histories of calls in one process, nowrap=True (mostly by default argument): every family in turn, then random ones
+        for i in range(ctx.n(160, 6000)):
+            o, m = gen_hist_case(ctx.rng, HIST_FAMS[i % len(HIST_FAMS)])
             ops.append((o, m, "random"))
         results, nlines = run_ops(ctx, impl, [o for o, _, _ in ops])
         res.extra["driver_lines"] = nlines
@@ -2168,7 +2638,12 @@ def correspond(ctx, res):
                                        if m["n"] <= 40 else "41-600"))
             if o["op"] == "usage" and o["st"][0] == o["st"][1]:
                 res.count("usage:f_bsize == f_frsize (must stay 0)")
-            nontrivial = (o["op"] == "usage" and o["st"][2] > 0) or \
+            if o["op"] == "hist":
+                vals = [x for stp in sp for row in ([v for _, v in stp.get("devs", [])] + ([stp["fields"]] if "fields" in stp else []))
+                        for _, x in row]
+                res.count("hist:values promised exactly", sum(1 for x in vals if x is not None))
+                res.count("hist:values without a claim (a counter was seen going backwards: C10's subject)", sum(1 for x in vals if x is None))
+            nontrivial = o["op"] == "hist" or (o["op"] == "usage" and o["st"][2] > 0) or \
                          (o["op"] in ("net", "disk", "sysfs") and m.get("n", 0) > 0) or \
                          (o["op"] in ("netraw", "diskraw") and len(o["file"]) > 0) or o["op"] == "sysfsraw"
             res.case(o, nontrivial=nontrivial,
@@ -2187,7 +2662,15 @@ def correspond(ctx, res):
                 res.count("net:name-with-strip()-able-end")
             if in_slash_region(o):
                 res.count("sysfs:slash-name read through /sys/block (region of C09-sysfs-slash-name)")
-            if verdict == "spec":
+            if verdict is not None and o["op"] == "hist":
+                hv = hist_verdicts(im, mo, sp)
+                k = next(i for i, v in enumerate(hv) if v == verdict) if verdict in hv else -1
+                res.disagree(verdict, o, im, mo, sp, note="history of calls in one process: the answer of step %d (0-based) differs "
+                             "from the %s; impl there: %s; promised (null = no claim): %s" % (
+                                 k, "specification (Spec/C09Hist: exact kernel values unless that counter was seen going backwards "
+                                 "while the device stayed listed)" if verdict == "spec" else "Lean model",
+                                 str(im[k])[:300] if k >= 0 else "?", str(sp[k])[:300] if k >= 0 else "?"))
+            elif verdict == "spec":
                 res.disagree("spec", o, im, mo, sp, note="implementation differs from the specification "
                              "(kernel-rendered input → documented fields)", finding=fid)
             elif verdict == "model":
@@ -2195,7 +2678,9 @@ def correspond(ctx, res):
         res.exhaustive = ("%d cases: every field count 0..25 of a /proc/diskstats line (alone / after a valid line, "
                           "perdisk both ways), every counter count 0..20 of a /proc/net/dev line, every header-line "
                           "count 0..3, every index 0..7 of the colon in a /proc/net/dev line (pernic both ways), every field count 0..20 of a /sys/block/<dev>/stat file (perdisk both ways), int() on every "
-                          "token of length <= 4 over the alphabet '+-_019x', blank, 0x1f (7381 tokens, one case); the "
+                          "token of length <= 4 over the alphabet '+-_019x', blank, 0x1f (7381 tokens, one case); every 3-step history of a device "
+                          "absent / listed young / listed with large counters next to one that stays up, under the form sequences PPP TTT PTP "
+                          "TPT, both functions, nowrap by default (216 histories); the "
                           "table/usage cases are samples") % n_exh
         res.extra["access_redirects"] = impl.access_log
         res.extra["listings re-ordered (os.listdir of /sys/block)"] = impl.order_log
@@ -2285,8 +2770,45 @@ def _fails(ctx, impl, op):
     return judge(op, im, mo, sp) == "spec", im, mo, sp
 
 
+def shrink_hist(ctx, d):
+    """fewer steps, then fewer devices (a device is removed from every step at once)"""
+    op = d["input"]
+    impl = Impl(ctx)
+    try:
+        fails = lambda steps: bool(steps) and _fails(ctx, impl, dict(op, steps=steps))[0]
+        steps = ddmin(op["steps"], fails, max_tests=40) if len(op["steps"]) > 1 else op["steps"]
+        names = sorted({x["name"] for st in steps for x in st.get("ifs", st.get("devs", []))})
+
+        def without(drop):
+            out = []
+            for st in steps:
+                st = dict(st)
+                for key in ("ifs", "devs"):
+                    if key in st:
+                        st[key] = [x for x in st[key] if x["name"] not in drop]
+                out.append(st)
+            return out
+        dropped = set()
+        for nm in names:
+            if len(names) - len(dropped) > 1 and fails(without(dropped | {nm})):
+                dropped.add(nm)
+        op2 = dict(op, steps=without(dropped))
+        bad, im, mo, sp = _fails(ctx, impl, op2)
+        if bad:
+            hv = hist_verdicts(im, mo, sp)
+            k = hv.index("spec")
+            return dict(d, input=op2, impl=im, model=mo, spec=sp,
+                        note="history of calls in one process (shrunk): step %d (0-based) returns %s; promised (null = no claim): %s"
+                             % (k, str(im[k])[:300], str(sp[k])[:300]))
+    finally:
+        impl.close()
+    return d
+
+
 def shrink(ctx, d):
     op = d["input"]
+    if op.get("op") == "hist":
+        return shrink_hist(ctx, d)
     key = {"net": "ifs", "disk": "devs", "sysfs": "disks"}.get(op.get("op"))
     if key is None or len(op[key]) < 2:
         return d
